@@ -53,7 +53,7 @@ fn hstep() -> impl Strategy<Value = HStep> {
                 rotate,
                 acquire_faults: if no_faults { vec![] } else { acquire_faults },
                 // an attestation answered 200 is a success whatever its body: only error statuses and resets are failures
-                attest_faults: if no_faults { vec![] } else { attest_faults.into_iter().filter(|f| matches!(f, Fault::Status(..) | Fault::Reset)).collect() },
+                attest_faults: if no_faults { vec![] } else { attest_faults.into_iter().enumerate().filter(|(_, f)| matches!(f, Fault::Status(..) | Fault::Reset)).map(|(i, f)| if i == 0 && f == Fault::Reset { Fault::ResetAfterCommit } else { f }).collect() },
             }),
         3 => fault().prop_map(|fault| HStep::StatusFailure { fault }),
     ]
